@@ -2,5 +2,6 @@ import OxyModel.Props.C04
 #print axioms C04.C04_inflight_le_max
 #print axioms C04.C04_reject_iff_full
 #print axioms C04.C04_slots_exact
+#print axioms C04.C04_rejection_holds_nothing
 #print axioms C04.C04_release_on_every_exit
 #print axioms C04.C04_quiescent_restores_max
